@@ -11,24 +11,24 @@ namespace Spowtd
 variable {α : Type} [Num α]
 
 theorem overlaps_iff (st ri : Nat × Nat) :
-    overlaps st ri = true ↔ ∃ i, st.1 ≤ i ∧ i < st.2 ∧ ri.1 ≤ i ∧ i < ri.2 := by
-  sorry
+    overlaps st ri = true ↔ ∃ i, st.1 ≤ i ∧ i < st.2 ∧ ri.1 ≤ i ∧ i < ri.2 :=
+  overlaps_iff' st ri
 
 /-- The many-to-many candidate relation is exactly "the storm run and the rise run share a step". -/
 theorem candidates_iff_overlap (v w : List Bool) (st ri : Nat × Nat)
     (hs : st ∈ trueRuns v) (hr : ri ∈ trueRuns w) :
-    ri.1 ∈ (problemOf (trueRuns v) (trueRuns w)).prefs st.1 ↔ overlaps st ri = true := by
-  sorry
+    ri.1 ∈ (problemOf (trueRuns v) (trueRuns w)).prefs st.1 ↔ overlaps st ri = true :=
+  candidates_iff_overlap' v w st ri hs hr
 
-theorem problemOf_wf (v w : List Bool) : GS.WF (problemOf (trueRuns v) (trueRuns w)) := by
-  sorry
+theorem problemOf_wf (v w : List Bool) : GS.WF (problemOf (trueRuns v) (trueRuns w)) :=
+  problemOf_wf' v w
 
 /-- A storm's proposals go from the closest duration to the farthest. -/
 theorem problemOf_sorted (storms rises : List (Nat × Nat)) (a r r' : Nat)
     (h : GS.Before ((problemOf storms rises).prefs a) r r') :
     stormScore (runWithStart storms a) (runWithStart rises r') ≤
-      stormScore (runWithStart storms a) (runWithStart rises r) := by
-  sorry
+      stormScore (runWithStart storms a) (runWithStart rises r) :=
+  problemOf_sorted' storms rises a r r' h
 
 /-- No blocking pair among overlapping storm and rise runs, in terms of the scores a user can
     compute from the record: duration agreement for the storm, start-time agreement for the rise.
@@ -39,14 +39,48 @@ theorem classify_stable (pick : List Nat → Nat) (s j : α) (dt : Int) (zeta ra
       ((∀ ri', (st, ri') ∉ (classifyIdx pick s j dt zeta rain).pairs) ∨
         ∃ ri', (st, ri') ∈ (classifyIdx pick s j dt zeta rain).pairs ∧ stormScore st ri' < stormScore st ri) ∧
       ((∀ st', (st', ri) ∉ (classifyIdx pick s j dt zeta rain).pairs) ∨
-        ∃ st', (st', ri) ∈ (classifyIdx pick s j dt zeta rain).pairs ∧ riseScore ri st' < riseScore ri st) := by
-  sorry
+        ∃ st', (st', ri) ∈ (classifyIdx pick s j dt zeta rain).pairs ∧ riseScore ri st' < riseScore ri st) :=
+  idxPairs_stable pick (heavy s rain) (jumps j dt zeta)
 
 /-- When no rise is indifferent between two candidate storms the result does not depend on the
     order in which storms are considered. -/
 theorem classify_schedule_independent (pick₁ pick₂ : List Nat → Nat) (s j : α) (dt : Int)
     (zeta rain : List α) (h : (classifyIdx pick₁ s j dt zeta rain).strict = true) :
-    classifyIdx pick₁ s j dt zeta rain = classifyIdx pick₂ s j dt zeta rain := by
-  sorry
+    classifyIdx pick₁ s j dt zeta rain = classifyIdx pick₂ s j dt zeta rain :=
+  classifyIdx_schedule_independent pick₁ pick₂ s j dt zeta rain h
+
+/-! ### Non-vacuity (kernel evaluation at `Rat`; thresholds `s = 4`, `j = 1`, hourly step) -/
+namespace Example
+
+/-- storms `[0,1)`, `[2,4)` both overlap the only rise `[0,3)`: both list it as a candidate -/
+example : (problemOf (trueRuns (heavy s [5, 0, 5, 5, 0])) (trueRuns (jumps j 3600 [0, 2, 4, 6, 6]))).storms
+    = [0, 2] := by decide +kernel
+example : (problemOf (trueRuns (heavy s [5, 0, 5, 5, 0])) (trueRuns (jumps j 3600 [0, 2, 4, 6, 6]))).prefs 2
+    = [0] := by decide +kernel
+example : overlaps (2, 4) (0, 3) = true ∧ overlaps (0, 1) (0, 3) = true ∧ overlaps (0, 1) (1, 3) = false := by
+  decide
+
+/-- the rise strictly prefers the storm with the same start: the test is positive and both
+    schedules record the same pair (the hypothesis of `classify_schedule_independent` holds) -/
+example : (classifyIdx pickFirst s j 3600 [0, 2, 4, 6, 6] [5, 0, 5, 5, 0]).strict = true := by
+  decide +kernel
+example : (classifyIdx pickFirst s j 3600 [0, 2, 4, 6, 6] [5, 0, 5, 5, 0]).pairs = [((0, 1), (0, 3))] ∧
+    (classifyIdx pickLast s j 3600 [0, 2, 4, 6, 6] [5, 0, 5, 5, 0]).pairs = [((0, 1), (0, 3))] := by
+  decide +kernel
+
+/-- … and the hypothesis is needed: storms `[0,3)` and `[4,5)` are equally far from the start of the
+    rise `[2,5)`; the test is negative and the two schedules record different (both stable) pairs -/
+example : (classifyIdx pickFirst s j 3600 [0, 0, 0, 2, 4, 6] [5, 5, 5, 0, 5, 0]).strict = false := by
+  decide +kernel
+example : (classifyIdx pickFirst s j 3600 [0, 0, 0, 2, 4, 6] [5, 5, 5, 0, 5, 0]).pairs = [((0, 3), (2, 5))] ∧
+    (classifyIdx pickLast s j 3600 [0, 0, 0, 2, 4, 6] [5, 5, 5, 0, 5, 0]).pairs = [((4, 5), (2, 5))] := by
+  decide +kernel
+
+/-- a sorted preference list with two candidates: storm `[0,4)` overlaps the rises `[0,1)` and
+    `[2,5)`; it proposes first to the one closest in duration -/
+example : (problemOf (trueRuns (heavy s [5, 5, 5, 5, 0, 0])) (trueRuns (jumps j 3600 [0, 2, 2, 4, 6, 8]))).prefs 0
+    = [2, 0] := by decide +kernel
+
+end Example
 
 end Spowtd
